@@ -19,7 +19,7 @@ inductive Kind | none | create | wrap
   deriving DecidableEq, Inhabited
 
 /-- what a suspended coroutine does first when it is resumed -/
-inductive Pend | fresh | yielded | pyielded | exhausted
+inductive Pend | fresh | yielded | pyielded | pyieldedG | fyielded | exhausted
   deriving DecidableEq, Inhabited
 
 structure CoInfo where
@@ -35,6 +35,9 @@ structure ScriptSt where
   sp : State := init
   info : Nat → CoInfo := fun _ => {}
   events : List String := []     -- reversed
+  guards : Nat → List String := fun _ => []   -- pending to-be-closed guards of each thread, innermost first (tags)
+  gseq : Nat → Nat := fun _ => 0              -- inner guards declared so far by each thread
+  quiet : Bool := false                        -- cleanup phase: only handler events are recorded
   killed : List Nat := []
   outcome : String := ""
   bad : Bool := false
@@ -43,6 +46,7 @@ inductive Action
   | create (k mode : Nat) (wrap : Bool)
   | resume (k : Nat) (vs : List Val)
   | yield (vs : List Val) | pyield (vs : List Val)
+  | pyieldG (vs : List Val) | fyield (vs : List Val) | pgerr (v : Val) | ferr (v : Val)
   | ret (vs : List Val) | err (v : Val) | perr (v : Val)
   | close (k : Nat) | status (k : Nat) | isYieldable | spin
   deriving Inhabited
@@ -52,20 +56,40 @@ def showOpt : Option Val → String
   | none => "n"
   | some v => toString v
 
-def ScriptSt.emit (s : ScriptSt) (e : String) : ScriptSt := { s with events := e :: s.events }
+def ScriptSt.emit (s : ScriptSt) (e : String) : ScriptSt :=
+  if s.quiet && !(e.startsWith "T " || e.startsWith "H ") then s else { s with events := e :: s.events }
+
+/-- the thread declares an inner to-be-closed guard: tag <thread>.<n> -/
+def ScriptSt.pushInner (s : ScriptSt) (me : Nat) : ScriptSt :=
+  let n := s.gseq me + 1
+  { s with gseq := upd s.gseq me n, guards := upd s.guards me (s!"{me}.{n}" :: s.guards me),
+           sp := (step s.sp .mark).1 }
 def ScriptSt.setInfo (s : ScriptSt) (k : Nat) (f : CoInfo → CoInfo) : ScriptSt :=
   { s with info := upd s.info k (f (s.info k)) }
 
 def statusName : Status → String
   | .suspended => "suspended" | .running => "running" | .normal => "normal" | .dead => "dead"
 
+/-- the spec's `tbc` events as trace events: the closed guard is the innermost pending one of that thread -/
+def closeEvents (s : ScriptSt) (evs : List Event) : ScriptSt :=
+  evs.foldl (fun s e =>
+    match e with
+    | .tbc t err =>
+      let tag := (s.guards t).headD "?"
+      let s := { s with guards := upd s.guards t ((s.guards t).drop 1) }
+      let s := s.emit s!"T {tag} {showOpt err}"
+      if tag == toString t && (s.info t).mode == 2 then s.emit s!"H {t} t 1" else s
+    | _ => s) s
+
 /-- turn the spec's events into trace events (and bookkeeping) -/
 def handleEvents (s : ScriptSt) (evs : List Event) (me : Nat) (closing : Option Nat) : ScriptSt :=
   evs.foldl (fun s e =>
     match e with
     | .tbc t err =>
-      let s := s.emit s!"T {t} {showOpt err}"
-      if (s.info t).mode == 2 then s.emit s!"H {t} t 1" else s
+      let tag := (s.guards t).headD "?"
+      let s := { s with guards := upd s.guards t ((s.guards t).drop 1) }
+      let s := s.emit s!"T {tag} {showOpt err}"
+      if tag == toString t && (s.info t).mode == 2 then s.emit s!"H {t} t 1" else s
     | .deliver to m =>
       let tag := if (s.info to).waitWrap then "W" else "R"
       let k := (s.info to).waitK
@@ -74,10 +98,20 @@ def handleEvents (s : ScriptSt) (evs : List Event) (me : Nat) (closing : Option 
         match (s.info to).pend with
         | .fresh =>
           let s := s.setInfo to (fun i => { i with started := true })
-          let s := if (s.info to).mode > 0 then { s with sp := (step s.sp .mark).1 } else s
+          let s := if (s.info to).mode > 0 then
+              { s with sp := (step s.sp .mark).1, guards := upd s.guards to (toString to :: s.guards to) } else s
           s.emit s!"B {to}{showVals vs}"
         | .yielded => s.emit s!"Y {to}{showVals vs}"
         | .pyielded => s.emit s!"P {to} t{showVals vs}"
+        | .pyieldedG =>
+          -- the yield returns, the function inside the pcall returns: its guard is closed, then pcall returns
+          let (sp', evs') := step s.sp (.unmark none)
+          let s := closeEvents { s with sp := sp' } evs'
+          s.emit s!"P {to} t{showVals vs}"
+        | .fyielded =>
+          let (sp', evs') := step s.sp (.unmark none)
+          let s := closeEvents { s with sp := sp' } evs'
+          s.emit s!"Y {to}{showVals vs}"
         | .exhausted => s
       | .ok vs => s.emit s!"{tag} {k} t{showVals vs}"
       | .fail v => s.emit s!"{tag} {k} F {v}"
@@ -104,6 +138,18 @@ def killChain : Nat → ScriptSt → ScriptSt
       let (sp', _) := step s.sp .exc
       killChain fuel { s with sp := sp', killed := me :: s.killed }
 
+/-- what the running thread observes before its next action: every thread's status, who runs, yieldability -/
+def observe (s : ScriptSt) : ScriptSt :=
+  if s.bad || s.outcome != "" then s else
+  let me := s.sp.cur
+  let st (k : Nat) : String :=
+    if k == 0 then statusName (s.sp.status 0)
+    else match (s.info k).kind with
+      | .none => "-"
+      | .wrap => if !(s.info k).started then "-" else statusName (s.sp.status k)
+      | .create => statusName (s.sp.status k)
+  s.emit s!"O {me} {st 0} {st 1} {st 2} {st 3} {me} {if me == 0 then "t" else "F"} {if s.sp.isYieldable then "t" else "F"}"
+
 def exec (s : ScriptSt) (a : Action) : ScriptSt :=
   if s.bad || s.outcome != "" then s else
   let me := s.sp.cur
@@ -122,6 +168,17 @@ def exec (s : ScriptSt) (a : Action) : ScriptSt :=
   | .pyield vs =>
     if me == 0 then s.emit "P 0 illegal" else
     doStep (s.setInfo me (fun i => { i with pend := .pyielded })) (.yield vs)
+  | .pyieldG vs =>
+    if me == 0 then s.emit "P 0 illegal" else
+    doStep ((s.pushInner me).setInfo me (fun i => { i with pend := .pyieldedG })) (.yield vs)
+  | .fyield vs =>
+    if me == 0 then s.emit "Y 0 illegal" else
+    doStep ((s.pushInner me).setInfo me (fun i => { i with pend := .fyielded })) (.yield vs)
+  | .pgerr v =>
+    -- pcall(function() local g <close> = …; error(v) end): the guard is closed with v, pcall returns false, v
+    let s := doStep (s.pushInner me) (.unmark (some v))
+    s.emit s!"PG {me} F {v}"
+  | .ferr v => if me == 0 then s else doStep (s.pushInner me) (.err v)
   | .ret vs => if me == 0 then s else doStep s (.ret vs)
   | .err v => if me == 0 then s else doStep s (.err v)
   | .perr v => s.emit s!"PE {me} F {v}"
@@ -142,7 +199,7 @@ def unwind : Nat → ScriptSt → ScriptSt
   | fuel + 1, s =>
     let me := s.sp.cur
     if me == 0 || s.outcome != "" || s.bad then s else
-      unwind fuel (doStep (s.setInfo me (fun i => { i with pend := .exhausted })) (.yield []))
+      unwind fuel (observe (doStep (s.setInfo me (fun i => { i with pend := .exhausted })) (.yield [])))
 
 def finalStatus (s : ScriptSt) (k : Nat) : String :=
   match (s.info k).kind with
@@ -150,16 +207,31 @@ def finalStatus (s : ScriptSt) (k : Nat) : String :=
   | .wrap => if !(s.info k).started then "nohandle" else statusName (s.sp.status k)
   | .create => statusName (s.sp.status k)
 
+/-- the harness's cleanup: never-started wrap coroutines are started (they find the script exhausted and
+    yield), then every suspended coroutine is closed, in order; only handler events are recorded -/
+def cleanup (s : ScriptSt) : ScriptSt :=
+  let s := { s with quiet := true, events := [], outcome := "" }
+  let s := [1, 2, 3].foldl (fun s k =>
+    if (s.info k).kind == .wrap && !(s.info k).started then
+      let s := s.setInfo 0 (fun i => { i with waitK := k, waitWrap := true })
+      let s := doStep s (.resume k [])
+      if s.sp.cur == k then doStep (s.setInfo k (fun i => { i with pend := .exhausted })) (.yield []) else s
+    else s) s
+  [1, 2, 3].foldl (fun s k =>
+    if (s.info k).kind != .none && s.sp.status k == .suspended then doStep s (.close k) (some k) else s) s
+
 def runScript (acts : List Action) : String :=
-  let s := acts.foldl exec {}
-  let s := unwind 8 s
+  let s := acts.foldl (fun s a => exec (observe s) a) {}
+  let s := unwind 8 (observe s)
   if s.bad then "bad-script" else
   let s := if s.outcome == "" then { s with outcome := "done" } else s
   let finals := [1, 2, 3].map (finalStatus s)
   let d1 := (finals.filter (fun f => f == "suspended" || f == "nohandle")).length
   let ev := " ; ".intercalate s.events.reverse
   let killed := String.join (s.killed.reverse.map (fun k => " " ++ toString k))
-  s!"{ev} | F {" ".intercalate finals} | G {d1} 0 | {s.outcome} | X{killed}"
+  let c := cleanup s
+  let cev := " ; ".intercalate c.events.reverse
+  s!"{ev} | F {" ".intercalate finals} | G {d1} 0 | {s.outcome} | X {cev} | K{killed}"
 
 def parseVals (s : String) : Option (List Val) :=
   if s.isEmpty then some [] else
@@ -175,6 +247,10 @@ def parseAction (tok : String) : Option Action :=
   | some vs =>
     if head == "y" then some (.yield vs)
     else if head == "py" then some (.pyield vs)
+    else if head == "pyt" then some (.pyieldG vs)
+    else if head == "fy" then some (.fyield vs)
+    else if head == "pge" then vs.head?.map .pgerr
+    else if head == "fe" then vs.head?.map .ferr
     else if head == "ret" then some (.ret vs)
     else if head == "e" then vs.head?.map .err
     else if head == "pe" then vs.head?.map .perr
